@@ -276,3 +276,65 @@ def step (s : IOState) : List String → IOState × String
 
 end GAE
 
+
+namespace GAE
+
+/-! ### rollout collection: what `learn()` receives (one environment column of one agent)
+
+  `collect` models the step loop of `train_on_policy` / `train_multi_agent_on_policy`
+  (`harness/py2lean_rollout.py` translates it from the source, `Proofs/RolloutGenEq.lean`):
+  per step the policy's outputs for the state acted on and the environment's reply are appended to the lists;
+  `dones` receives the flag carried over from the PREVIOUS step (`done`), the new flag
+  `terminated OR truncated` becomes `next_done` and the carried `done` of the next step. -/
+
+/-- what one trip round the step loop receives: the policy's outputs for the state it acts on and the
+    environment's reply; `reset = some o` iff the loop itself reset the environment after this step -/
+structure StepReply (σ α : Type) where
+  action : α
+  logp : Rat
+  entropy : Rat
+  value : Rat
+  obs : σ
+  reward : Rat
+  term : Bool
+  trunc : Bool
+  reset : Option σ
+
+/-- the done flag as coded: `np.logical_or(terminated, truncated)` — a truncation counts as an episode end -/
+def StepReply.flag {σ α} (x : StepReply σ α) : Bool := x.term || x.trunc
+
+/-- the observation the next step acts on -/
+def StepReply.after {σ α} (x : StepReply σ α) : σ := x.reset.getD x.obs
+
+/-- the lists handed to learn, `next_state` / `next_done`, and the two variables carried from step to step -/
+structure Collected (σ α : Type) where
+  states : List σ
+  actions : List α
+  logps : List Rat
+  rewards : List Rat
+  dones : List Bool
+  values : List Rat
+  nextState : σ
+  nextDone : Bool
+  state : σ          -- the observation the next step acts on
+  done : Bool        -- the flag the next step records with it
+
+def collectStep {σ α} (s : Collected σ α) (x : StepReply σ α) : Collected σ α :=
+  { states := s.states ++ [s.state], actions := s.actions ++ [x.action], logps := s.logps ++ [x.logp],
+    rewards := s.rewards ++ [x.reward], dones := s.dones ++ [s.done], values := s.values ++ [x.value],
+    nextState := x.obs, nextDone := x.flag, state := x.after, done := x.flag }
+
+/-- before the first step: empty lists; `ns0` / `nd0` stand for the unbound `next_state` / `next_done` -/
+def collectInit {σ α} (done0 : Bool) (state0 ns0 : σ) (nd0 : Bool) : Collected σ α :=
+  { states := [], actions := [], logps := [], rewards := [], dones := [], values := [],
+    nextState := ns0, nextDone := nd0, state := state0, done := done0 }
+
+/-- the rollout collected from a stream of replies, starting with the carried flag `done0` (`np.zeros` as coded) -/
+def collect {σ α} (done0 : Bool) (state0 ns0 : σ) (nd0 : Bool) (xs : List (StepReply σ α)) : Collected σ α :=
+  xs.foldl collectStep (collectInit done0 state0 ns0 nd0)
+
+/-- the column the GAE loop works on: the critic's value of `next_state` is the bootstrap value -/
+def Collected.col {σ α} (R : Collected σ α) (critic : σ → Rat) : Col :=
+  { r := R.rewards, d := R.dones, v := R.values, nv := critic R.nextState, nd := R.nextDone }
+
+end GAE
